@@ -151,6 +151,30 @@ def post(ctx):
     return {"coverage": {"stress": res}, "violations": viol}
 
 
+
+def property_oracle(line, impl_out):
+    """C05 at the level of the property text: the answer is an AST or an error whose line is a line of the input and
+       whose column range lies inside that line; anything else (panic, crash, no answer) violates it"""
+    import re
+    o = impl_out.strip()
+    if o.startswith("(ok"):
+        return "ok"
+    m = re.match(r"^\(err ([A-Za-z]+) (\d+) (\d+) (\d+)\)$", o)
+    if not m:
+        return "violates: " + o[:80]
+    mt = re.search(r" #([0-9a-f]*)\)\s*$", line)
+    if not mt:
+        return None
+    text = bytes.fromhex(mt.group(1))
+    ln, col, n = int(m.group(2)), int(m.group(3)), int(m.group(4))
+    rows = text.split(b"\n")
+    if ln >= len(rows):
+        return "violates: line %d of %d" % (ln, len(rows))
+    if col + n > len(rows[ln]):
+        return "violates: columns %d+%d in a line of %d bytes" % (col, n, len(rows[ln]))
+    return "ok"
+
+
 def nontrivial(line):
     return True
 
@@ -166,6 +190,7 @@ PROP = {
     "gen": gen,
     "compare_spec": False,
     "post": post,
+    "property_oracle": property_oracle,
     "nontrivial": nontrivial,
     "distribution": distribution,
     "rule": "valid filters with 1-3 character/token insertions, deletions, replacements, duplications, truncations; token "
